@@ -95,13 +95,15 @@ descriptorLoop:
 					isMaybe[i] = true
 				}
 			}
-			for i := range arguments {
+			assertedArguments := make([]physical.Expression, len(arguments))
+			copy(assertedArguments, arguments)
+			for i := range assertedArguments {
 				if isMaybe[i] {
 					targetType := descriptor.ArgumentTypes[i]
 					if descriptor.Strict {
 						targetType = octosql.TypeSum(targetType, octosql.Null)
 					}
-					arguments[i] = physical.Expression{
+					assertedArguments[i] = physical.Expression{
 						ExpressionType: physical.ExpressionTypeTypeAssertion,
 						Type:           *octosql.TypeIntersection(targetType, arguments[i].Type),
 						TypeAssertion: &physical.TypeAssertion{
@@ -117,10 +119,12 @@ descriptorLoop:
 				ExpressionType: physical.ExpressionTypeFunctionCall,
 				FunctionCall: &physical.FunctionCall{
 					Name:               fe.Name,
-					Arguments:          arguments,
+					Arguments:          assertedArguments,
 					FunctionDescriptor: descriptor,
 				},
 			}
+			// The first descriptor the arguments may fit is used, the arguments are asserted to its types only.
+			break
 		}
 	}
 
